@@ -139,11 +139,14 @@ fn evaluate_do_block_expr(
             source.clone(),
         )?;
 
-        // Set lambda name if assigning a lambda
+        // Name the lambda after the first name it is bound to (a later alias must not rename
+        // it: the name is visible inside the function and takes precedence over captured names)
         if let Value::Lambda(lambda_ptr) = val {
             let mut borrowed_heap = heap.borrow_mut();
             if let Some(HeapValue::Lambda(lambda_def)) = borrowed_heap.get_mut(lambda_ptr.index()) {
-                lambda_def.name = Some(ident.clone());
+                if lambda_def.name.is_none() {
+                    lambda_def.name = Some(ident.clone());
+                }
             }
         }
 
@@ -413,13 +416,17 @@ pub fn evaluate_ast(
                 ));
             }
 
-            // Set lambda name if assigning a lambda
+            // Name the lambda after the first name it is bound to (a later alias must not
+            // rename it: the name is visible inside the function and takes precedence over
+            // captured names)
             if let Value::Lambda(lambda_ptr) = val {
                 let mut borrowed_heap = heap.borrow_mut();
                 if let Some(HeapValue::Lambda(lambda_def)) =
                     borrowed_heap.get_mut(lambda_ptr.index())
                 {
-                    lambda_def.name = Some(ident.clone());
+                    if lambda_def.name.is_none() {
+                        lambda_def.name = Some(ident.clone());
+                    }
                 }
             }
 
